@@ -28,8 +28,8 @@ typedef struct { int kind, a; } kill_t;
 static kill_t kills[64];
 static int nkill;
 
-enum { C_HONEST_REST = 0, C_ORIGINAL, C_FRESH_APP, C_GARBAGE, C_PROBE, C_CLOSE_PROBE, C_PLAIN23, C_NCONT };
-static const char *cname[] = { "honest-rest", "original-record", "fresh-peer-app-data", "garbage-record", "encode-probe", "closure-then-probe", "plain23" };
+enum { C_HONEST_REST = 0, C_ORIGINAL, C_FRESH_APP, C_GARBAGE, C_PROBE, C_CLOSE_PROBE, C_PLAIN23, C_TIMEOUT, C_NCONT };
+static const char *cname[] = { "honest-rest", "original-record", "fresh-peer-app-data", "garbage-record", "encode-probe", "closure-then-probe", "plain23", "dtls-retransmit-timer" };
 
 typedef struct {
     world_t w;
@@ -302,6 +302,14 @@ static void apply_cont(gctx_t *g, int c, mon_t *m)
         len = mk_record(rec, dtls, 23, maj, min, 0, 61, (const unsigned char *) "EVIL!", 5);
         world_feed(&g->w, v, rec, len);
         break;
+    case C_TIMEOUT:
+        /* DTLS: the application's retransmission timer fires on the dead session (matrixDtlsGetOutdata with an empty outbuf
+           = resend the last flight): a dead session never again encrypts handshake messages */
+        if (dtls)
+        {
+            world_dtls_timeout(&g->w, v);
+        }
+        break;
     case C_PROBE:
         if (world_encode_probe(&g->w, v) > 0)
         {
@@ -348,13 +356,14 @@ static void run_case(void *ctx, mx_result_t *r)
     gctx_t *g = ctx;
     const wcfg_t *c = &cfgs[g->ci];
     const kill_t *k = &kills[g->ki];
-    int v = g->victim, hs, dead;
+    int v = g->victim, hs, dead, was_read_secure;
     char cd[96];
     mon_t m;
     side_t *s = &g->w.s[v];
 
     cfg_desc(c, cd, sizeof(cd));
     hs = s->ssl->hsState;
+    was_read_secure = (s->ssl->flags & SSL_FLAGS_READ_SECURE) != 0;
     apply_kill(g, k);
     dead = is_dead(g);
     if (!dead)
@@ -366,6 +375,18 @@ static void run_case(void *ctx, mx_result_t *r)
         int negotiated = hs != SSL_HS_CLIENT_HELLO && hs != SSL_HS_SERVER_HELLO;   /* state before the event */
         int must = !ver_is_dtls(c->ver) && c->ver != V_TLS13 && c->cver != V_MULTI && negotiated &&
             (k->kind == K_BADVER || k->kind == K_OVERSIZE || k->kind == K_PLAIN_ALERT || (k->kind == K_ILLEGAL_HS && k->a == 99));
+        /* a PROTECTED record that fails to verify (bit flipped in its MAC / tag, or in its first body byte) is an error on TLS
+           in every version - except for the records a TLS 1.3 server skips while it rejects early data the client OFFERED */
+        if (k->kind == K_CORRUPT && g->orig_len > 0 && !ver_is_dtls(c->ver))
+        {
+            int tls13 = c->ver == V_TLS13 || NGTD_VER(s->ssl, v_tls_1_3_any);
+            int prot = tls13 ? g->orig[0] == 23 : was_read_secure;
+            int early_offered = (c->kx == KX_13_PSK || c->resume13) && c->early_data;
+            if (prot && !(tls13 && v == 1 && early_offered))
+            {
+                must = 1;
+            }
+        }
         if (must && (k->kind != K_BADVER || g->orig_len > 0))
         {
             r->violation = 1;
